@@ -269,6 +269,7 @@ class World(object):
         self.hook_scripts = {}
         self.snapshot_fn = None    # used around dispatch (C10/C11)
         self.reply_hooks = []      # callbacks(req, entry) on a matched reply
+        self.dispatch_hooks = []   # callbacks(req) when a dispatch returned
         self.scratch = None
         self.start_future = None
         self.closed = False
@@ -714,6 +715,8 @@ class World(object):
                     r.accepted = (st == 'ok')
                 else:
                     r.accepted = True
+                for h in self.dispatch_hooks:
+                    h(r)
 
     def _on_reply(self, ent):
         o = ent[5]
